@@ -346,7 +346,9 @@ fn cmd_check(args: &[String]) {
                 f.run_index, f.run_seed, f.violation.prop, f.violation.rule, f.violation.sig, f.violation.msg
             );
             out!("  minimised from {} to {} ops in {} replays", f.ops_before_shrink, f.ops, f.shrink_replays);
-            if let Err(e) = runner::verify_replay_fresh_process(&path, f) {
+            if !f.reproducible {
+                out!("  NOTE: the violation was observed in the generating run, but replaying the recorded case does not show it again: the system under test behaves nondeterministically here (a source the simulator has no seam for, e.g. iteration over a std HashMap); the replay file holds the full, unminimised case");
+            } else if let Err(e) = runner::verify_replay_fresh_process(&path, f) {
                 out!("HARNESS-ERROR replay is not reproducible: {e}");
                 std::process::exit(2);
             }
